@@ -52,11 +52,11 @@ def allocVar (e : Enc) (t : VarType) (nv : Nat) : Nat × Enc :=
 def newSolverVar (e : Enc) (t : VarType) : Prog (Nat × Enc) :=
   .nVars 0 (fun nv => .pure (allocVar e t nv))
 
-def removeSelector (e : Enc) (s : Nat) : Prog Enc := do
-  addClause 0 [nl s]
-  match e.assumptions.findIdx? (fun l => l == pl s) with
-  | none => .crash "selector is not among the assumptions"
-  | some p => pure { e with vars := e.vars.set s .ignored, assumptions := swapRemoveL e.assumptions p }
+def removeSelector (e : Enc) (s : Nat) : Prog Enc :=
+  (addClause 0 [nl s]).bind fun _ =>
+    match e.assumptions.findIdx? (fun l => l == pl s) with
+    | none => .crash "selector is not among the assumptions"
+    | some p => .pure { e with vars := e.vars.set s .ignored, assumptions := swapRemoveL e.assumptions p }
 
 /-- the clauses tying argument `to` (variable `xt`) to its attackers (variables `xs`) under selector `sel` -/
 def attackClauses (sem : DSem) (sel xt : Nat) (xs : List Nat) : Cnf :=
@@ -72,69 +72,73 @@ def optAll {α : Type} : List (Option α) → Option (List α)
   | none :: _ => none
   | some a :: r => (optAll r).map (a :: ·)
 
+/-- retire the current selector of `to`, if it has one -/
+def dropSel (e : Enc) (to : Nat) : Prog Enc :=
+  match e.selVar.getD to none with
+  | some s => (removeSelector e s).bind fun e' => .pure { e' with selVar := e'.selVar.set to none }
+  | none => .pure e
+
+/-- record the freshly allocated selector `r.1` of `to` -/
+def withSelOf (r : Nat × Enc) (to : Nat) : Enc :=
+  { r.2 with assumptions := r.2.assumptions ++ [pl r.1], selVar := r.2.selVar.set to (some r.1) }
+
+def emitAttackClauses (st : Store) (e : Enc) (to sv : Nat) : Prog Enc :=
+  if !st.hasId to then .crash "get_argument_by_id on a removed argument" else
+  match e.argVar.getD to none, optAll ((st.iterTo to).map (fun p => e.argVar.getD p.1 none)) with
+  | some xt, some xs => (addClauses 0 (attackClauses e.sem sv xt xs)).bind fun _ => .pure e
+  | _, _ => .crash "argument without a solver variable"
+
 /-- `update_attacks_to_constraints` -/
 def updateAttacksTo (st : Store) (e : Enc) (to : Nat) : Prog Enc :=
-  if !e.enabled then pure e
+  if !e.enabled then .pure e
   else if to ≥ e.selVar.length then .crash "index out of bounds (selector table)"
-  else do
-    let e ← (match e.selVar.getD to none with
-      | some s => do
-        let e' ← removeSelector e s
-        pure { e' with selVar := e'.selVar.set to none }
-      | none => pure e)
-    let (sv, e) ← newSolverVar e (.sel to)
-    let e := { e with assumptions := e.assumptions ++ [pl sv], selVar := e.selVar.set to (some sv) }
-    if !st.hasId to then .crash "get_argument_by_id on a removed argument" else
-    match e.argVar.getD to none, optAll ((st.iterTo to).map (fun p => e.argVar.getD p.1 none)) with
-    | some xt, some xs => do
-      addClauses 0 (attackClauses e.sem sv xt xs)
-      pure e
-    | _, _ => .crash "argument without a solver variable"
+  else
+    (dropSel e to).bind fun e1 =>
+    (newSolverVar e1 (.sel to)).bind fun r =>
+    emitAttackClauses st (withSelOf r to) to r.1
 
 def foldProg {α β : Type} (f : β → α → Prog β) : List α → β → Prog β
-  | [], b => pure b
-  | a :: r, b => do
-    let b' ← f b a
-    foldProg f r b'
+  | [], b => .pure b
+  | a :: r, b => (f b a).bind fun b' => foldProg f r b'
+
+/-- allocate the variable(s) of a new argument `id` and record them -/
+def allocArg (e : Enc) (id : Nat) : Prog Enc :=
+  (newSolverVar e (.arg id)).bind fun r =>
+    match e.sem with
+    | .ST => .pure { r.2 with argVar := r.2.argVar ++ [some r.1], selVar := r.2.selVar ++ [none] }
+    | _ =>
+      (newSolverVar r.2 (.disj id)).bind fun r' =>
+      (addClause 0 [nl r.1, nl r'.1]).bind fun _ =>
+      .pure { r'.2 with argVar := r'.2.argVar ++ [some r.1], selVar := r'.2.selVar ++ [none] }
 
 /-- `DynamicConstraintsEncoder::new_argument` -/
-def encNewArgument (st : Store) (e : Enc) (l : Nat) : Prog (Store × Enc) := do
-  let st' := st.newArgument l
-  match st'.maxId with
+def encNewArgument (st : Store) (e : Enc) (l : Nat) : Prog (Store × Enc) :=
+  match (st.newArgument l).maxId with
   | none => .crash "max_argument_id on an empty framework"
   | some id =>
-    let (v, e) ← newSolverVar e (.arg id)
-    let e ← (match e.sem with
-      | .ST => pure e
-      | _ => do
-        let (d, e') ← newSolverVar e (.disj id)
-        addClause 0 [nl v, nl d]
-        pure e')
-    let e := { e with argVar := e.argVar ++ [some v], selVar := e.selVar ++ [none] }
-    let e ← updateAttacksTo st' e id
-    pure (st', e)
+    (allocArg e id).bind fun e1 =>
+    (updateAttacksTo (st.newArgument l) e1 id).bind fun e2 =>
+    .pure (st.newArgument l, e2)
+
+/-- forget the variable and the selector of the removed argument `id` -/
+def forgetArg (e : Enc) (id v : Nat) : Prog Enc :=
+  (dropSel e id).bind fun e1 =>
+  (addClause 0 [pl v]).bind fun _ =>
+  .pure { e1 with argVar := e1.argVar.set id none, vars := e1.vars.set v .ignored }
 
 /-- `DynamicConstraintsEncoder::remove_argument` (the caller unwraps) -/
 def encRemoveArgument (st : Store) (e : Enc) (l : Nat) : Prog (Store × Enc) :=
   match st.getArg l with
   | none => .crash "remove_argument: no such argument"
   | some id =>
-    let upd := ((st.iterFrom id).map (·.2)).filter (fun t => t != id)
     match st.removeArgument l with
     | .ok st' =>
       match e.argVar.getD id none with
       | none => .crash "argument without a solver variable"
-      | some v => do
-        let e := { e with argVar := e.argVar.set id none }
-        let e ← (match e.selVar.getD id none with
-          | some s => do
-            let e' ← removeSelector e s
-            pure { e' with selVar := e'.selVar.set id none }
-          | none => pure e)
-        let e := { e with vars := e.vars.set v .ignored }
-        addClause 0 [pl v]
-        let e ← foldProg (updateAttacksTo st') upd e
-        pure (st', e)
+      | some v =>
+        (forgetArg e id v).bind fun e1 =>
+        (foldProg (updateAttacksTo st') (((st.iterFrom id).map (·.2)).filter (fun t => t != id)) e1).bind fun e2 =>
+        .pure (st', e2)
     | _ => .crash "remove_argument failed"
 
 def encAttack (add : Bool) (st : Store) (e : Enc) (a b : Nat) : Prog (Store × Enc) :=
@@ -142,9 +146,7 @@ def encAttack (add : Bool) (st : Store) (e : Enc) (a b : Nat) : Prog (Store × E
   | .ok st' =>
     match st'.getArg b with
     | none => .crash "attack target vanished"
-    | some to => do
-      let e ← updateAttacksTo st' e to
-      pure (st', e)
+    | some to => (updateAttacksTo st' e to).bind fun e' => .pure (st', e')
   | _ => .crash "attack update failed"
 
 /-! ## the buffer -/
@@ -205,39 +207,36 @@ structure Replay where
   enc : Enc
   upd : List Nat := []
 
-def Replay.must (r : Replay) (id : Nat) : Replay :=
-  if r.upd.contains id then r else { r with upd := r.upd ++ [id] }
+/-- `must_update_attacks_to`: remember the id once -/
+def mustL (upd : List Nat) (id : Nat) : List Nat := if upd.contains id then upd else upd ++ [id]
 
 def needArg (st : Store) (l : Nat) : Prog Nat :=
   match st.getArg l with
-  | some i => pure i
+  | some i => .pure i
   | none => .crash "get_argument: no such label"
 
 def replayEvent (r : Replay) : Event → Prog Replay
-  | .newArg l => do
-    let (af, enc) ← encNewArgument r.af r.enc l
-    let id ← needArg af l
-    pure ({ r with af := af, enc := enc }.must id)
-  | .remArg l => do
-    let id ← needArg r.af l
-    let r := (((r.af.iterFrom id).map (·.2)).filter (fun t => t != id)).foldl Replay.must r
-    let (af, enc) ← encRemoveArgument r.af r.enc l
-    pure { r with af := af, enc := enc }
-  | .newAtt a b => do
-    let (af, enc) ← encAttack true r.af r.enc a b
-    let id ← needArg af b
-    pure ({ r with af := af, enc := enc }.must id)
-  | .remAtt a b => do
-    let (af, enc) ← encAttack false r.af r.enc a b
-    let id ← needArg af b
-    pure ({ r with af := af, enc := enc }.must id)
-  | _ => pure r
+  | .newArg l =>
+    (encNewArgument r.af r.enc l).bind fun p =>
+    (needArg p.1 l).bind fun id => .pure { af := p.1, enc := p.2, upd := mustL r.upd id }
+  | .remArg l =>
+    (needArg r.af l).bind fun id =>
+    (encRemoveArgument r.af r.enc l).bind fun p =>
+    .pure { af := p.1, enc := p.2,
+            upd := (((r.af.iterFrom id).map (·.2)).filter (fun t => t != id)).foldl mustL r.upd }
+  | .newAtt a b =>
+    (encAttack true r.af r.enc a b).bind fun p =>
+    (needArg p.1 b).bind fun id => .pure { af := p.1, enc := p.2, upd := mustL r.upd id }
+  | .remAtt a b =>
+    (encAttack false r.af r.enc a b).bind fun p =>
+    (needArg p.1 b).bind fun id => .pure { af := p.1, enc := p.2, upd := mustL r.upd id }
+  | _ => .pure r
 
 /-- `update_encoding` -/
-def DState.updateEncoding (d : DState) : Prog DState := do
-  let r ← foldProg replayEvent (d.buffer.drop d.next) { af := d.af, enc := d.enc }
-  let e ← foldProg (updateAttacksTo r.af) (r.upd.filter r.af.hasId) { r.enc with enabled := true }
-  pure { d with af := r.af, enc := { e with enabled := false }, next := d.buffer.length }
+def DState.updateEncoding (d : DState) : Prog DState :=
+  (foldProg replayEvent (d.buffer.drop d.next) { af := d.af, enc := d.enc }).bind fun r =>
+  (foldProg (updateAttacksTo r.af) (r.upd.filter r.af.hasId) { r.enc with enabled := true }).bind fun e =>
+  .pure { d with af := r.af, enc := { e with enabled := false }, next := d.buffer.length }
 
 /-! ## answer caches -/
 
